@@ -48,7 +48,7 @@ def rule(s):
             return G(CAST + "log::Level is an enum with values 1..=5", "value range of log::Level")
         if k == "expect":
             return O("logger installation: log::set_boxed_logger fails when a logger is already installed, e.g. redirectionio_log_init_stderr was called first, and the expect then panics inside an extern \"C\" fn (reported to C18 as a candidate; not reachable from the Rust API)")
-        return O("extern \"C\" logger installation (C18)")
+        return O("extern \"C\" logger installation (C18); the expect on set_boxed_logger that aborted the process when a logger was already installed was removed in ade8ac0")
     if f == "filter/buffer.rs":
         return O("Buffer is the #[repr(C)] byte buffer of the FFI: (data, len) come from Buffer::from_vec or from the C caller; null / zero length are checked two lines above; a wrong (data, len) pair is a caller contract violation (C18). Buffer::to_vec panicked on every non-empty buffer before 09c1c17")
     if f == "wasm_api.rs":
@@ -80,7 +80,9 @@ def rule(s):
 
     # ---------------------------------------------------------------- HTML body filters
     if f.startswith("filter/html_body_action/body_"):
-        if k == "index":
+        if k == "index" or (k == "sub" and "self.position -= 1" in t):
+            return ("lemma", "cursor arithmetic of the body visitors, modelled with every index and the decrement checked in RIO.C07Models (v_enter / v_leave / v_first): for a non-empty element_tree (HtmlBodyVisitor::new returns None for an empty one, so position = 0 < len initially) every sequence of enter / leave / first calls returns and keeps position < len. Hand transliteration (a few lines per function), no correspondence harness of its own; BodyAppend::new / BodyPrepend::new / BodyReplace::new are only called by HtmlBodyVisitor::new", {"lemma": "C07_visitor_cursor_total"})
+        if k == "index_unused":
             return S("element_tree[position] / element_tree[0]: HtmlBodyVisitor::new rejects an empty element_tree and enter/leave keep 0 <= position < len (enter increments only when position + 1 < len, leave decrements only when position > 0); the invariant spans several functions and is not proved. Exercised with element trees of length 1..4, repeated / unbalanced / truncated documents")
         if k == "cast":
             return G(CAST + "`self.position as i32 > 0` only compares; position < element_tree.len() (a Vec of Strings cannot reach 2^31 entries in practice)", "result only compared with 0")
